@@ -1053,6 +1053,12 @@ func TestEngine(t *testing.T) {
 			for k := 0; k < *flagN; k++ {
 				runCatchupCase(rng, *flagThorough, out, st, seen)
 			}
+		case "follower":
+			st.Rule = "one real server running its real follower loop (runFollower) on a generated image: no configuration at all, sole voter, 2 / 3 / 4 servers, this server a voter, a non-voter, staging or not listed, optionally a later configuration entry that gives or takes its vote; 3..10 [thorough: 5..20] stimuli: virtual time advanced past the heartbeat timeout (the loop's own timer fires), a little time after a contact, requests of other servers through the loop (AppendEntries / RequestVote / RequestPreVote / InstallSnapshot as in the handlers engine), API calls that need a leader (Apply, Barrier, membership changes, VerifyLeader); once the loop has made the server a candidate, up to two passes of the real candidate loop against scripted peers; every case is non-trivial"
+			seen := map[string]bool{}
+			for k := 0; k < *flagN; k++ {
+				runFollowerCase(rng, *flagThorough, out, st, seen)
+			}
 		case "leader":
 			st.Rule = "one real server made leader (by decree or through a won campaign against scripted peers) on a generated image (1, 2, 3, 3+non-voter or 5 voters; 1..6 entries, optional snapshot / compacted prefix; gap-tolerant or monotonic store, optional commit tracking; MaxAppendEntries 1 / 2 / 64), its real runLeader / leaderLoop running with every replication and heartbeat request parked in the harness transport; 4..13 [thorough: 6..29] stimuli: Apply (also with a failing StoreLogs), Barrier, bursts of 2..6 calls queued while the loop is busy, AddVoter / AddNonvoter / DemoteVoter / RemoveServer (own id included, stale prevIndex, calls waiting for the gate), VerifyLeader, a follower acknowledging / refusing / answering with a newer term, heartbeats answered yes / no / not at all, requests of other servers reaching the loop; after the leadership ends up to two more requests; every case is non-trivial (the no-op is dispatched)"
 			seen := map[string]bool{}
